@@ -79,43 +79,42 @@ theorem markLoop_invalid (p : Path) (l : Nat) (os : List Nat) (s : St) :
       · exact ih s o ho
       · exact ih _ o ho
 
-/-- the three mutually recursive loops of `invalidate_location` only shrink -/
-theorem shrinks_invalidate (fuel : Nat) :
-    (∀ s l p s', invalidate fuel s l p = .ok s' → Shrinks s s') ∧
-    (∀ s l cs s', childLoop fuel s l cs = .ok s' → Shrinks s s') ∧
-    (∀ s l os s', entryLoop fuel s l os = .ok s' → Shrinks s s') := by
-  induction fuel with
-  | zero => simp [invalidate, childLoop, entryLoop]
-  | succ f ih =>
-    obtain ⟨iA, iB, iC⟩ := ih
-    refine ⟨?_, ?_, ?_⟩
-    · intro s l p s' h
-      simp only [invalidate] at h
-      split at h
-      · cases h
-      · exact shrinks_trans (shrinks_markLoop p l _ s) (iB _ _ _ _ h)
-    · intro s l cs s' h
-      cases cs with
-      | nil => simp only [childLoop] at h; injection h with h; subst h; exact shrinks_refl s
-      | cons c cs =>
-        simp only [childLoop] at h
-        split at h
-        · rename_i s1 h1
-          exact shrinks_trans (iC _ _ _ _ h1) (iB _ _ _ _ h)
-        · rename_i hne
-          exact absurd h (hne s')
-    · intro s l os s' h
-      cases os with
-      | nil => simp only [entryLoop] at h; injection h with h; subst h; exact shrinks_refl s
-      | cons o os =>
-        simp only [entryLoop] at h
-        split at h
-        · split at h
-          · rename_i s1 h1
-            exact shrinks_trans (iA _ _ _ _ h1) (iC _ _ _ _ h)
-          · rename_i hne
-            exact absurd h (hne s')
-        · exact iC _ _ _ _ h
+theorem markLoop_vpaths_other (p : Path) (l : Nat) (os : List Nat) (s : St) (np : Path) (l' : Nat)
+    (h : ¬ (np = p ∧ l' = l)) : (markLoop p l os s).vpaths np l' = s.vpaths np l' := by
+  induction os generalizing s with
+  | nil => rfl
+  | cons o os ih =>
+    simp only [markLoop]
+    split
+    · exact ih s
+    · rw [ih]; simp [upd, h]
+
+theorem markLoop_valid_other (p : Path) (l : Nat) (os : List Nat) (s : St) (o : Nat) (h : o ∉ os) :
+    objValid (markLoop p l os s) o = objValid s o := by
+  induction os generalizing s with
+  | nil => rfl
+  | cons a os ih =>
+    have ha : o ≠ a := fun e => h (by simp [e])
+    have hos : o ∉ os := fun hm => h (List.mem_cons_of_mem _ hm)
+    simp only [markLoop]
+    split
+    · exact ih s hos
+    · rw [ih _ hos]
+      simp only [objValid, modify_get, ha, if_false]
+
+/-- the structural walk only shrinks -/
+theorem shrinks_invNode (depth : Nat) : ∀ s l p, Shrinks s (invNode depth s l p) := by
+  induction depth with
+  | zero => intro s l p; exact shrinks_markLoop p l _ s
+  | succ d ih =>
+    intro s l p
+    simp only [invNode]
+    have key : ∀ (cs : List Path) (s0 : St), Shrinks s0 (cs.foldl (fun s c => invNode d s l c) s0) := by
+      intro cs
+      induction cs with
+      | nil => exact fun s0 => shrinks_refl s0
+      | cons c cs ihc => intro s0; exact shrinks_trans (ih s0 l c) (ihc _)
+    exact shrinks_trans (shrinks_markLoop p l _ s) (key _ _)
 
 /-! ### `put` on a node that does not believe the path valid -/
 
